@@ -563,6 +563,14 @@ def execute(spec):
             site = "%s@%s" % (o["kernel"], sim.symbolize(o["pc"]))
             violations.append({"class": "oob", "site": site, "detail": dict(o, where=tag)})
 
+    # 0. the one kernel that reports about the runtime: omp_max_threads must say what the (simulated) runtime says
+    E.use(variant)
+    for T_ in (1, 3, 7):
+        sim.configure(dict(seed=0, team=T_, policy="order"))
+        got_T = int(E.mods[variant].omp_max_threads())
+        if got_T != T_:
+            violations.append({"class": "reference-divergence", "site": "omp_max_threads", "detail": dict(reported=got_T, runtime_team=T_, ref="omp_get_max_threads() of the simulated runtime")})
+            break
     # 1. world construction and reference run on the simulator at T=1 (serial kernels run under the bounds monitor)
     E.use(variant)
     sim.serial()
@@ -694,8 +702,11 @@ def execute(spec):
                                    "detail": dict(max_distance_from_shortest_image_set=float(sv[0]), pairs_with_wrong_multiplicity=int(sv[1]),
                                                   dense=bool(a["dense_svecs"]), ref="brute-force shortest periodic images (harness reference model)")})
             probes["smallest_vectors_checked_against_brute_force"] = 1
+            from .world import CRYSTALS as _CR
+
+            res_tol = 1e-5 if _CR[spec["world"]["crystal"]].get("inexact") else 1e-8
             for nm, val in zip(st.get("model_residual_names", []), ref.get("model_residuals", [])):
-                if not (val <= 1e-8):
+                if not (val <= (res_tol if "differs-from-model" in nm else 1e-8)):
                     violations.append({"class": "reference-divergence", "site": "fc_kernels:" + nm,
                                        "detail": dict(residual=float(val), ref="harness reference model (translation-invariant spring model)")})
         elif driver == "mesh_tp":
